@@ -166,6 +166,45 @@ def default_site_failures():
                 yield cname, fname, 'one mutable object is the default of every instance'
 
 
+def mutable_parameter_defaults():
+    """(qualified callable, parameter, type of the default) for every hand-written constructor of the library whose parameter default
+    is a mutable container: the one object is shared by every call that relies on the default (attrs fields are covered by
+    default_site_failures; this is the plain-Python form of the same defect)."""
+    import importlib
+    import inspect
+    import pkgutil
+    import attr
+    import cryptoparser
+    seen = set()
+    for m in pkgutil.walk_packages(cryptoparser.__path__, 'cryptoparser.'):
+        try:
+            mod = importlib.import_module(m.name)
+        except Exception:  # pylint: disable=broad-except
+            continue
+        funcs = []
+        for _, obj in inspect.getmembers(mod):
+            if inspect.isclass(obj) and obj.__module__ == mod.__name__ and not attr.has(obj):
+                # hand-written constructors only: they store what they are given (the generated __init__ of attrs classes is
+                # exercised behaviourally by default_site_failures, and plain functions do not keep their arguments)
+                f = obj.__dict__.get('__init__')
+                if inspect.isfunction(f):
+                    funcs.append((f.__qualname__, f))
+        for qn, f in funcs:
+            if (mod.__name__, qn) in seen or qn.startswith('<') or '__attrs' in qn:
+                continue
+            seen.add((mod.__name__, qn))
+            try:
+                sig = inspect.signature(f)
+            except (TypeError, ValueError):
+                continue
+            for pname, prm in sig.parameters.items():
+                d = prm.default
+                if d is inspect.Parameter.empty:
+                    continue
+                if isinstance(d, (list, dict, set, bytearray)) or (hasattr(d, '_items') and hasattr(d, 'append')):
+                    yield '%s.%s' % (mod.__name__, qn), pname, type(d).__name__
+
+
 def vector_copy_failures(cls, buf):
     """A vector built from another vector of its class (what the attrs converters of the message classes do) must not
     share its item list with the source."""
@@ -209,6 +248,9 @@ def run(chk):
     sites = 0
     for cname, fname, detail in default_site_failures():
         chk.violation(detail, {'class': cname, 'field': fname, 'predicate': 'shared-default'}, '%s.%s/shared-default' % (cname, fname), True)
+    for fn, pname, tname in mutable_parameter_defaults():
+        chk.violation('%s(%s=...) has a mutable %s as its default: every call that relies on the default shares that one object' % (fn, pname, tname),
+                      {'callable': fn, 'parameter': pname, 'predicate': 'mutable-parameter-default'}, '%s(%s)/mutable-parameter-default' % (fn, pname), True)
     sites = len(gen_tables.default_sites())
     vectors = sweep.library_vectors()
     seen = set()
@@ -291,6 +333,10 @@ def replay(path):
     if pred == 'shared-default':
         hits = [x for x in default_site_failures() if x[0] == r['class'] and x[1] == r['field']]
         print(hits or 'default is per-instance')
+        ok = not hits
+    elif pred == 'mutable-parameter-default':
+        hits = [x for x in mutable_parameter_defaults() if x[0] == r['callable'] and x[1] == r['parameter']]
+        print(hits or 'the default is immutable')
         ok = not hits
     elif pred in ('observer', 'alias', 'vector-copy'):
         mod, q = r['class'].rsplit('.', 1)
